@@ -302,6 +302,40 @@ def FramesKeyFun (cur : List Placement) : List WOp → Prop
   | .refresh :: r => KeyFun cur ∧ FramesKeyFun cur r
   | .resize _ _ :: r => FramesKeyFun cur r
 
+/-! ### Histories that mix kitty and sixel images
+
+`kitty id`: image `id` was made with `NewKittyGraphic` (else `NewSixel`: its placements' `deleteFn` writes nothing and
+their `writeTo` writes the sixel data at the cursor — nothing the kitty tables see). -/
+
+def World.renderK (kitty : Nat → Bool) (w : World) (refresh : Bool) : World × List Cmd :=
+  let r := renderGen { w.ps with refresh := w.ps.refresh || refresh }
+  let e := emit kitty kittyWriteBody w.imgs r.2
+  ({ w with ps := r.1, imgs := e.1, term := w.term.run e.2 }, e.2)
+
+def World.stepK (kitty : Nat → Bool) (w : World) : WOp → World
+  | .resize id ok =>
+    if ok then { w with imgs := update w.imgs id (resizeGen (w.imgs id) w.serial),
+                        latest := update w.latest id (some w.serial), serial := w.serial + 1 }
+    else w
+  | .draw p => { w with ps := { w.ps with next := w.ps.next ++ [p] } }
+  | .clear => { w with ps := { w.ps with next := [] } }
+  | .render => (w.renderK kitty false).1
+  | .refresh => (w.renderK kitty true).1
+
+def World.runK (kitty : Nat → Bool) (w : World) (ops : List WOp) : World := ops.foldl (World.stepK kitty) w
+
+/-- The kitty placements of a list. -/
+def kittyOf (kitty : Nat → Bool) (l : List Placement) : List Placement := l.filter fun p => kitty p.id
+
+/-- The kitty placements of every frame are key-functional. -/
+def FramesKeyFunK (kitty : Nat → Bool) (cur : List Placement) : List WOp → Prop
+  | [] => True
+  | .draw p :: r => FramesKeyFunK kitty (cur ++ [p]) r
+  | .clear :: r => FramesKeyFunK kitty [] r
+  | .render :: r => KeyFun (kittyOf kitty cur) ∧ FramesKeyFunK kitty cur r
+  | .refresh :: r => KeyFun (kittyOf kitty cur) ∧ FramesKeyFunK kitty cur r
+  | .resize _ _ :: r => FramesKeyFunK kitty cur r
+
 /-- An application operation with its window (`ImageDraw.AOp`) as operations of this world (kitty images): a `Draw`
     records its placement iff no gate returns (`ImageDraw.lower`, for `WOp`). -/
 def lowerW : VaxisModel.Model.ImageDraw.AOp → List WOp
